@@ -3815,15 +3815,23 @@ async def _helper_rename_inbox(inbox: Mailbox, new_name: str) -> None:
     new_msg_keys = []
     sequences: Sequences = defaultdict(set)
 
+    # NOTE: Like COPY we move the octets of the message file (not a parsed and
+    #       serialized again message) and keep the file's mtime: that is the
+    #       message's internal date.
+    #
     for key in (int(x) for x in inbox.mailbox.keys()):
+        msg_path = mbox_msg_path(inbox.mailbox, key)
         try:
-            msg = inbox.get_msg(key)
-        except KeyError:
+            with open(msg_path, "rb") as f:
+                msg = f.read()
+            mtime = os.path.getmtime(msg_path)
+        except FileNotFoundError:
             continue
 
         uids.append(new_mbox.next_uid)
         new_mbox.next_uid += 1
         new_msg_key = int(new_mbox.mailbox.add(msg))
+        os.utime(mbox_msg_path(new_mbox.mailbox, new_msg_key), (mtime, mtime))
         new_msg_keys.append(new_msg_key)
 
         for seq in inbox.sequences.keys():
@@ -3857,5 +3865,9 @@ async def _helper_rename_inbox(inbox: Mailbox, new_name: str) -> None:
         inbox.msg_keys = []
         inbox.num_msgs = 0
         inbox.uids = []
+        # (lookups by uid or message key - POP3's are not queued behind this
+        # command - must not find the messages that are gone.)
+        #
+        inbox._rebuild_index_dicts()
         inbox.set_sequences_in_folder(inbox.sequences)
         await inbox.commit_to_db()
